@@ -29,7 +29,7 @@ ADDENDA = {
     'C10': AGED + '; codes next to the destination grid and its ties by every route x rounding direction (8..52-bit formats); routes resize(signed, n_int, n_frac) and Fxp(x, n_int=...); scalar sources that are elements of an array read before and after a resize by dtype; rescaling by up to 52 bits under saturate (no 62-bit limit).',
     'C11': 'Rendering under configured bin / hex prefixes and unrelated options; rendering never changes the codes. hex / base_repr / bin(frac_dot) of 2-d objects in five non-C layouts; strings fed into objects reached through a history (integer-born then resized by n_frac / dtype, like-derived, used).',
     'C12': 'Complex dtype strings combined with like= / class-level template of a real object; render - store complex - render - store real - render histories.',
-    'C13': AGED + '.' + ENVT + ' Also: array second operands (outer, equal-length, matrix x vector, scalar x vector) at every word length.',
+    'C13': AGED + '.' + ENVT + ' Also: array second operands (outer, equal-length, matrix x vector, scalar x vector) at every word length; format-change histories: an object already used in ~ / & is widened by 1, 2, 5 bits or given the other signedness at the same / one more bit (resize, like=, deep copy + resize), then ~ & | ^ must be those of the new format.',
     'C14': AGED + '.' + ENVT + ' Also: every power of two, its neighbours and the extremes as single elements x every shift count up to 62 - n_word.',
     'C15': AGED + '; clip with bounds outside the range, negative lower bound for unsigned formats, integer bounds.',
     'C16': AGED + '.' + ENVT + ' Also: format pairs whose binary points are up to 68 bits apart (n_frac in {-8, 0, n+8, 44, 60}).',
